@@ -474,8 +474,9 @@ def observe(scn):
                                        own_res=ro, own=[list(r) for r in otxt.split("\n")] if ro == "ok" and isinstance(otxt, str) else []))
             rec["argmod"] += [k for k in modified(":to_ascii") if k[: -len(":to_ascii")] not in rec["argmod"]]
         # ---- the caller overwrites every argument object; the figure must not change any more
-        for o in owned.values():
-            _scramble(o)
+        if scn.get("scramble", True):
+            for o in owned.values():
+                _scramble(o)
         try:
             ax = mp.ax
             ims = list(ax.images)
@@ -625,6 +626,9 @@ def scenarios_graph(args):
         cnt[0] += 1
         for ul, hasnv in sel:
             out.append(_scn(kind, conn, ul, nv=_nv_fixed(r, c) if hasnv else None, src=src, **kw))
+            # class A (state kept between plots must not matter) needs the earlier figures' arguments LEFT INTACT - a stale cache keyed
+            # on a maze is only hit again while that maze still equals the next one; class E needs them overwritten: alternate per graph
+            out[-1]["scramble"] = bool(n % 2)
 
     emit("LatticeMaze")
     emit("LatticeMaze", ops=_rand_ops(rng, conn, r, c, p_true=1.0))
